@@ -35,7 +35,8 @@ def main():
             print(f"repo-tests: rc={t.returncode} {tail}")
         rc_all = 0
         for pid in pids:
-            env = dict(os.environ, VERIF_REPO=repo)
+            env = dict(os.environ, VERIF_REPO=repo, VERIF_EVIDENCE_DIR=os.path.join(tmp, "evidence"),
+                       VERIF_REPLAY_DIR=os.path.join(HERE, "replays", "mutants"))
             c = subprocess.run([os.path.join(HERE, "check"), pid, "--tier", tier], env=env, capture_output=True, text=True)
             viol = [l for l in c.stdout.splitlines() if l.startswith("VIOLATION") or l.strip().startswith("violated:")]
             status = {0: "MISSED", 1: "CAUGHT", 2: "INCONCLUSIVE"}.get(c.returncode, f"rc={c.returncode}")
